@@ -781,6 +781,11 @@ class Program:
 
             pu.validate_gate_parameters(compiled)
 
+        elif device and device.layout:
+            # no allowed gate parameters are given, so any value is valid; the compiled circuit
+            # must nevertheless match the circuit layout of the device
+            pu.validate_gate_parameters(compiled, validate_values=False)
+
         return compiled
 
     def optimize(self):
